@@ -76,7 +76,7 @@ pub const COMMENTS: &[&str] = &[
 pub const HOSTILE: &[&str] = &[
     "\n", "\r\n", "\t", " ", "  ", "\u{a0}", "\u{2028}", "\u{3000}", "é", "ж", "日本", "😀", "e\u{301}",
     "\u{feff}", "\0", "¬", "¦", "∘", "\u{1680}", "ℕ", "_", "\u{200b}", "\r", "\u{b}", "\u{c}",
-    "ß", "İ", "ǅ",
+    "ß", "İ", "ǅ", "\u{fffe}", "\u{ffff}", "\u{1a}", "\u{1c}", "\u{1f}", "\u{7f}", "\u{85}", "\u{2060}", "\u{fe0f}", "ï»¿", "５", "²", "½", "٣",
 ];
 
 pub const WORDS: &[&str] = &[
